@@ -80,6 +80,30 @@ theorem closed {S : σ → Prop} (hS : ∀ q a t, S q → step q a t → S t) {q
   | eps hs _ ih => exact ih (hS _ _ _ hq hs)
   | sym hs _ ih => exact ih (hS _ _ _ hq hs)
 
+/-- A path reading nothing uses ε-edges only; it can be transported along any map of states that
+preserves ε-edges. -/
+theorem eps_lift {τ : Type} {step2 : τ → Option α → τ → Prop} (f : σ → τ)
+    (h : ∀ q t, step q none t → step2 (f q) none (f t)) {p r : σ}
+    (hp : Path step p [] r) : Path step2 (f p) [] (f r) := by
+  generalize hw : ([] : List α) = w at hp
+  induction hp with
+  | nil => exact Path.nil _
+  | eps hs _ ih => exact Path.eps (h _ _ hs) (ih hw)
+  | sym hs _ ih => cases hw
+
+/-- A path reading `a :: u` consists of ε-edges, then an `a`-edge, then a path reading `u`. -/
+theorem split_cons {p r : σ} {a : α} {u : List α} (hp : Path step p (a :: u) r) :
+    ∃ p1 p2, Path step p [] p1 ∧ step p1 (some a) p2 ∧ Path step p2 u r := by
+  generalize hw : a :: u = w at hp
+  induction hp with
+  | nil => cases hw
+  | eps hs _ ih =>
+    obtain ⟨p1, p2, h1, h2, h3⟩ := ih hw
+    exact ⟨p1, p2, Path.eps hs h1, h2, h3⟩
+  | sym hs hrest _ =>
+    cases hw
+    exact ⟨_, _, Path.nil _, hs, hrest⟩
+
 end Path
 
 /-- Words accepted from state `q`. -/
